@@ -47,8 +47,8 @@ def run_impl(mod, cases, build_cache):
         # four times the budget, before it becomes an observation
         again = [c for c in cs if isolate and "diverged" in [x for x in r1.get(c["id"], []) if isinstance(x, str)]]
         if again:
-            r2 = core.run_harness(build_cache[bk], area, again, isolate=True, timeout_ms=timeout_ms * 4,
-                                  extra=extra, jobs=2)
+            r2 = core.run_harness(build_cache[bk], area, again, isolate=True, timeout_ms=timeout_ms * 3,
+                                  extra=extra, jobs=6)
             r1.update(r2)
         res.update(r1)
     return res, bsec
@@ -195,7 +195,7 @@ def main_property(mod, tier, seed, replay=None, out=sys.stdout):
                 vv = r[0][2]
                 return (not vv["prop"]) and is_known(vv, known) is None
             try:
-                m = ddmin(c[skey], still)
+                m = ddmin(c[skey], still, budget=12)
                 if len(m) < len(c[skey]):
                     shrunk = copy.deepcopy(c)
                     shrunk[skey] = m
